@@ -181,6 +181,50 @@ pub fn check(thorough: bool, _seed: u64) -> Check {
             run(&poly3_pw(&u.ends), u, &idxs, "Poly3", cx)
         }
     });
+    // every number of pieces for piece types of every size: thresholds in segments and in bytes ((n-1)*size_of::<Segment<T>>()
+    // crossing 4, 16, 64 KiB) are crossed for every type, with arguments in the last cells, on breakpoints and after a decrease
+    fn sized<T: Nums + Evaluate>(n: usize, kind: usize, name: &str, cx: &mut Cx) -> Verdict {
+        let ends: Vec<f64> = (0..n).map(|i| 0.5 + i as f64 * 0.25).collect();
+        let pw: Piecewise<T> = Piecewise {
+            segments: ends.iter().enumerate().map(|(i, &e)| Segment { end: e, poly: T::from_nums(&(0..T::N).map(|l| 1.0 + (i % 251) as f64 + 0.125 * l as f64).collect::<Vec<_>>()) }).collect(),
+        };
+        let e = |k: usize| ends[k.min(n - 1)];
+        let xs: Vec<f64> = match kind {
+            0 => vec![e(n.saturating_sub(3)), exact::pred(e(n.saturating_sub(2))), e(n.saturating_sub(2)), exact::succ(e(n.saturating_sub(2))), e(n - 1), e(n - 1) + 7.0],
+            1 => (0..n).step_by(37).map(|k| ends[k] - 0.125).chain([e(n.saturating_sub(2)) + 0.125, e(n - 1) + 1.0]).collect(),
+            _ => vec![0.0, e(n / 2), e(n - 1) - 0.125, 0.25, e(n - 1) + 1.0, e(n.saturating_sub(2))],
+        };
+        let idxs: Vec<usize> = (0..xs.len()).collect();
+        let u = Unit { ends, alpha: xs, depth: 0 };
+        cx.nontrivial();
+        if cx.sampling() {
+            cx.sample(json!({"piece_type": name, "pieces": n, "arguments": fjs(&u.alpha)}));
+        }
+        run(&pw, &u, &idxs, name, cx)
+    }
+    let sizes = Phase {
+        name: "every-number-of-pieces",
+        units: 7,
+        split: 1,
+        body: Box::new(move |unit, cx| {
+            let top = if thorough { 3300 } else { 1100 };
+            let k = cx.choose(top - 1 + 4);
+            let n = if k < top - 1 { 2 + k } else { [4097usize, 8193, 16385, 65537][k - (top - 1)] };
+            let kind = cx.choose(3);
+            match unit {
+                0 => sized::<Poly0>(n, kind, "Poly0", cx),
+                1 => sized::<Poly1>(n, kind, "Poly1", cx),
+                2 => sized::<Poly3>(n, kind, "Poly3", cx),
+                3 => sized::<Poly5>(n, kind, "Poly5", cx),
+                4 => sized::<Poly7>(n, kind, "Poly7", cx),
+                5 => sized::<Poly8>(n, kind, "Poly8", cx),
+                _ => sized::<Log<Poly2>>(n, kind, "Log<Poly2>", cx),
+            }
+        }),
+        classes: vec![],
+        bounds: json!({"piece_types": "Poly0, Poly1, Poly3, Poly5, Poly7, Poly8, Log<Poly2> (Segment sizes 16..80 bytes)", "pieces": if thorough {"every n from 2 to 3300, and 4097, 8193, 16385, 65537"} else {"every n from 2 to 1100, and 4097, 8193, 16385, 65537"},
+            "arguments": "three sequences: around the last two breakpoints (pred / exact / succ) and beyond; an increasing sweep through every 37th cell into the last two cells; a sequence with decreases (first cell, middle breakpoint, last cell, back to the first cell, beyond, second-to-last breakpoint)"}),
+    };
     Check {
         id: "C12",
         rule: "choice tree: shape (unit) x piece type x sequence length x one argument per position; each leaf is one argument sequence fed to the real evaluate_v through an input iterator that counts next() calls; non-trivial = sequence containing a decrease or an argument equal to an end".into(),
@@ -202,7 +246,7 @@ pub fn check(thorough: bool, _seed: u64) -> Check {
                 "shapes": "all non-decreasing end lists of length 1..5 over {1..5}, of length 1..3 over the nasty value set, of length 6 over {1..6} (depth 2; 3 thorough), and the lists 1..n for n=6..9 (12 thorough; depth 3 up to n=8, then 2)",
                 "sequences": if thorough {"every sequence of length 0..5 (0..4 for 5 pieces) over A(ends)"} else {"every sequence of length 0..4 (0..3 for 5 pieces) over A(ends)"},
                 "piece_types": "Probe, Poly3"}),
-        }],
+        }, sizes],
         extra: Default::default(),
         controls: vec![],
     }
